@@ -254,6 +254,9 @@ class FnCheck(Check):
         ctx.map_functions = {}
         ctx.module_constants = dict(getattr(self, 'module_constants', {}))
         ctx.field_types = dict(getattr(self, 'field_types', {}))
+        ctx.allow_yield = bool(getattr(self, 'allow_yield', False))
+        ctx.objref_fields = set(getattr(self, 'objref_fields', ()))
+        ctx.abstract_untracked_ifs = bool(getattr(self, 'abstract_untracked_ifs', False))
         ctx.solver_timeout_ms = getattr(self, 'feasibility_timeout_ms', ctx.solver_timeout_ms)
         ex = Executor(ctx)
         st = State(ctx)
